@@ -1172,6 +1172,9 @@ func NewInputObject(config InputObjectConfig) *InputObject {
 	if gt.err = invariant(config.Name != "", "Type must be named."); gt.err != nil {
 		return gt
 	}
+	if gt.err = assertValidName(config.Name); gt.err != nil {
+		return gt
+	}
 
 	gt.PrivateName = config.Name
 	gt.PrivateDescription = config.Description
